@@ -298,6 +298,44 @@ def check_plumbing(ck: Check) -> None:
         ck.ok("P1", "the bytes returned by recv() are handed to the connection's parser unchanged", "", pas[0].loc)
     else:
         ck.violated("P1", "the bytes returned by recv() are handed to the connection's parser unchanged", "%s" % [e.describe()[:120] for e in pas], lp.fi.loc)
+    # ---- P8: nothing between the socket and the parser decides on the content of a single read
+    data = sp.term("data")
+    conds = list(s.tests.values()) + [c.term for e in s.events for c in e.pc]
+    dep = sorted({show(t)[:100] for t in conds if mentions(t, data)})
+    construct = "handle_receive_data: no decision depends on the chunk (what one read contains is an accident of the transport)"
+    if dep:
+        ck.violated("P8", construct, "conditions on the chunk: %s — the same byte stream is treated differently when it is cut differently" % dep, s.fi.loc)
+    else:
+        ck.ok("P8", construct, "", s.fi.loc)
+    recvs = [e for e in lp.events if e.kind == "call" and e.parts and e.parts[0][0] == "a" and e.parts[0][2] == "recv"]
+    construct = "selector event: exactly one recv() per read-readiness event, outside any loop (a second recv on a drained socket raises)"
+    if len(recvs) == 1 and not recvs[0].loops and not pas[0].loops if pas else False:
+        ck.ok("P8", construct, "", recvs[0].loc)
+    else:
+        ck.violated("P8", construct, "%d recv call(s), in loop: %s" % (len(recvs), [bool(e.loops) for e in recvs]), lp.fi.loc)
+    if recvs:
+        rv = recvs[0].term
+        conds = list(lp.tests.values())
+        bad = sorted({show(t)[:100] for t in conds if mentions(t, rv) and t != rv and t != ("not", rv)})
+        construct = "selector event: the only test on the bytes read is emptiness (remote close)"
+        if bad:
+            ck.violated("P8", construct, "other tests on the read: %s" % bad, lp.fi.loc)
+        else:
+            ck.ok("P8", construct, "", lp.fi.loc)
+        # receive() recurses once per completed frame: the number of frames one read can complete must stay far below the interpreter's
+        # recursion limit, whatever the peer sends
+        from .c07 import extractor
+        from .c20 import min_size
+        ex = extractor(ck)
+        mf = 8 + min_size(ex, "skepticoin.networking.messages.MessageHeader") + min_size(ex, "skepticoin.networking.messages.Message")
+        size = rv[2][0] if rv[2] else None
+        construct = "selector event: read size / smallest well-formed frame (%d bytes) <= 300 nested receive() calls" % mf
+        if size is not None and size[0] == "c" and isinstance(size[1], int) and 0 < size[1] and size[1] // mf <= 300:
+            ck.ok("P8", construct, "recv(%d): at most %d frames complete in one read" % (size[1], size[1] // mf), recvs[0].loc)
+        else:
+            ck.violated("P8", construct, "recv size is %s: a burst of small frames arriving in one read overflows the recursion of receive() and the "
+                        "connection is dropped, although the same bytes in smaller reads are all delivered" % (show(size) if size is not None else None),
+                        recvs[0].loc)
 
 
 def check(ck: Check) -> None:
